@@ -98,7 +98,7 @@ REGISTRY = {
         "level": "proof",
         "modules": ["SkaModel.Props.C15"],
         "gen": ["C15", "C12"],
-        "cli": [c15_cli],
+        "cli": [c15_cli, cli.make_map_cli("C15", 60, 300)],
         "cell_search": c15_cell_search,
         "rule": "complete enumeration of the regenerated tables (every cell is a distinct case); the consumers of the tables in-process: one split k-mer seen several times with different middle bases in every order, multiplicity and strand, ordinary and self-complementary arms (IUPAC update and the W/S/N palindrome update) vs model and window specification; non-trivial = all",
         "trusted_base": COMMON_TRUST + ["`skah tables` (tabulates the running code into Generated/Tables.lean on every run)"],
@@ -148,7 +148,7 @@ REGISTRY = {
         "trusted_base": COMMON_TRUST, "assumptions": [EXTERNAL],
     },
     "C08": {
-        "level": "proof", "modules": ["SkaModel.Props.C08", "SkaModel.Props.EndToEnd"], "gen": ["C08", "C10"], "cli": [cli.make_hist_cli("C08", 40, 400)],
+        "level": "proof", "modules": ["SkaModel.Props.C08", "SkaModel.Props.EndToEnd"], "gen": ["C08", "C10"], "cli": [cli.make_hist_cli("C08", 40, 400), cli.c08_big_cli],
         "rule": "tables of 2-8 samples; delete sets: first, last, adjacent block, alternating, random subset, shuffled order, all (refused), unknown (refused), partly unknown (refused), none (refused); non-trivial = accepted deletions",
         "trusted_base": COMMON_TRUST, "assumptions": [EXTERNAL],
     },
